@@ -163,9 +163,14 @@ def _run_exh(acc, job):
 
 @st.composite
 def _hyp_case(draw):
-    kind = draw(st.sampled_from(["pdag", "embedded", "weighted", "weighted", "weighted_embedded", "faithless"]))
+    kind = draw(st.sampled_from(["pdag", "embedded", "weighted", "weighted", "weighted_embedded", "faithless", "wide", "wide_weighted"]))
     if kind == "pdag":
         case = {"A": draw(S.pdag(1, 9, weights=(3, 3, 2))), "dtype": draw(st.sampled_from(["int", "float", "uint8", "bool", "float32"]))}
+    elif kind == "wide":
+        case = {"A": draw(S.embedded_wide(draw(S.pdag(2, 8, weights=(2, 3, 2))))), "dtype": draw(st.sampled_from(["int", "float", "uint8", "bool"]))}
+    elif kind == "wide_weighted":
+        W, cls = draw(S.weighted_dag(2, 8))
+        case = {"W": draw(S.embedded_wide(W)), "dtype": "float"}
     elif kind == "embedded":
         case = {"A": draw(S.embedded(draw(S.pdag(2, 6, weights=(2, 3, 2))))), "dtype": draw(st.sampled_from(["int", "float"]))}
     elif kind == "weighted":
